@@ -18,7 +18,7 @@ DECIDED = [
     "COMPARATOR: the heap comparator is a plain comparison of the two stored timestamps",
     "plus the priority-queue handle rules of C06 (the scheduler cancels by handle)",
 ]
-NOT_DECIDED = ["exactly-once over arbitrary re-entrant programs as a run-time fact (follows from these rules and C06 only informally)"]
+NOT_DECIDED = ["the `always` of the next-task-time clause for a query made from inside a running task (known finding D18)", "exactly-once over arbitrary re-entrant programs as a run-time fact (follows from these rules and C06 only informally)"]
 ASSUMPTIONS = ["priority queue and linked list behave per C06 / C09"]
 
 
@@ -304,6 +304,20 @@ def has_tasks_rules(R, ts):
                 if "timestamp" in f.show(el["a"][0]) and f.show(RU.uncast(f, el["a"][1])) == "timestamp":
                     mins.append(el)
     R.check(len(mins) == 1, "HAS-TASKS", "minimum-of-heap-and-list", "%s()" % f.name, "the heap's top replaces the list's head only when strictly earlier")
+    # "always reports the earliest pending time": every container a scheduled, not yet invoked task can sit in is looked at.
+    # s_run_all moves the tasks of the current call into a list that is local to it before it invokes them one by one.
+    ra = ts["s_run_all"]
+    local_lists = set()
+    for e in ra.all_events():
+        if e.kind == "decl":
+            for v in e.node["vars"]:
+                if ra.unit.types[v["t"]].get("rec") == "aws_linked_list":
+                    local_lists.add(v["n"])
+    fed = {l for l in local_lists if any(l in argstr(ra, e.node, i) for e in ra.calls({"aws_linked_list_push_back", "aws_linked_list_swap_contents"}) for i in (0, 1) if i < len(e.node["a"]))}
+    invoked_from = {l for l in fed if any(l in argstr(ra, e.node, 0) for e in ra.calls({"aws_linked_list_pop_front"}))}
+    visible = {x["f"] for b in f.blocks.values() for el in list(b.elems) + ([b.cond] if b.cond is not None else []) for x in f.walk(el, follow_refs=True) if x["k"] == "member" and x.get("rec") == "aws_task_scheduler"}
+    R.check(not invoked_from, "HAS-TASKS", "sees-the-current-batch", "%s() / s_run_all()" % f.name, "no pending task sits in a container the query does not look at",
+            "s_run_all keeps the tasks of the current call in %s, local to that call, while it invokes them one by one; aws_task_scheduler_has_tasks only looks at %s: asked from inside a running task it reports `no tasks` / UINT64_MAX although later tasks of the same call are still pending" % (sorted(invoked_from), sorted(visible)))
     c = ts["aws_task_scheduler_clean_up"]
     okl = False
     for b in c.blocks.values():
